@@ -117,4 +117,136 @@ theorem Video_items_le (t : State) (buf : Bytes) (h : (unpack t buf).2 = .ok ())
         | error e => simp
     | [] => simp
     | _ :: _ :: _ => simp
+/-! ### packet-level outcome list (review B4): `VideoFormat2.unpack` returns, or raises `struct.error` (fewer than
+    4 bytes) or a bare `Exception` (intra-packet-header bit set, or a 188-byte chunk the transport-stream decoder
+    refuses); each kind characterised on the bytes -/
+
+/-- the chunk loop ends with an exception — always a bare `Exception` — exactly when some chunk
+    `buf[off + 188·k : off + 188·k + 188]` that starts inside the buffer is refused -/
+theorem splitTS_error_iff (buf : Bytes) (fuel off : Nat) (hf : buf.length - off + 1 ≤ fuel) (e : Err) :
+    splitTS buf fuel off = .error e ↔
+      e = .generic ∧ ∃ k, off + 188 * k < buf.length ∧ chunkOk (slice buf (off + 188 * k) (off + 188 * k + 188)) = false := by
+  induction fuel generalizing off with
+  | zero => omega
+  | succ fuel ih =>
+    unfold splitTS
+    by_cases hlt : off < buf.length
+    · simp only [hlt, if_true]
+      by_cases hok : chunkOk (slice buf off (off + 188)) = true
+      · simp only [hok, if_true]
+        have := ih (off + 188) (by omega)
+        cases hr : splitTS buf fuel (off + 188) with
+        | ok cs =>
+          rw [hr] at this
+          simp only [reduceCtorEq, false_iff]
+          rintro ⟨he, k, hk, hc⟩
+          cases k with
+          | zero => simp only [Nat.mul_zero, Nat.add_zero] at hc; rw [hok] at hc; cases hc
+          | succ k =>
+            exact absurd (this.2 ⟨he, k, by omega, by rw [← hc]; congr 2 <;> omega⟩) (by simp)
+        | error e' =>
+          rw [hr] at this
+          simp only [Except.error.injEq]
+          constructor
+          · rintro rfl
+            obtain ⟨he, k, hk, hc⟩ := this.1 rfl
+            exact ⟨he, k + 1, by omega, by rw [← hc]; congr 2 <;> omega⟩
+          · rintro ⟨he, k, hk, hc⟩
+            cases k with
+            | zero => simp only [Nat.mul_zero, Nat.add_zero] at hc; rw [hok] at hc; cases hc
+            | succ k =>
+              have := this.2 ⟨he, k, by omega, by rw [← hc]; congr 2 <;> omega⟩
+              simpa using this
+      · simp only [hok, Bool.false_eq_true, if_false, Except.error.injEq]
+        constructor
+        · rintro rfl
+          exact ⟨rfl, 0, by omega, by simpa using hok⟩
+        · rintro ⟨rfl, _⟩; rfl
+    · simp only [hlt, if_false, reduceCtorEq, false_iff]
+      rintro ⟨_, k, hk, _⟩
+      omega
+
+/-- the channel-specific word (little-endian 32 bits) of a buffer holding it -/
+def videoCsw (buf : Bytes) : Nat := decInt false (buf.take 4)
+
+/-- exactly which exception, and when -/
+theorem Video_unpack_error_iff (t : State) (buf : Bytes) (e : Err) :
+    (unpack t buf).2 = .error e ↔
+      (buf.length < 4 ∧ e = .struct) ∨
+      (4 ≤ buf.length ∧ e = .generic ∧ ((videoCsw buf / 2 ^ 19) % 2 = 1 ∨
+        ∃ k, 188 * k < buf.length - 4 ∧ chunkOk (slice (buf.drop 4) (188 * k) (188 * k + 188)) = false)) := by
+  simp only [unpack]
+  by_cases h4 : 4 ≤ buf.length
+  · have hc : structUnpackFrom VID_unpack_fmt0 buf 0 = .ok [videoCsw buf] := by
+      simp only [structUnpackFrom, VID_unpack_fmt0, Fmt.size, codesSize, Code.size, unpackCodes, videoCsw, List.drop_zero]
+      have : 0 + (4 + 0) ≤ buf.length := by omega
+      simp only [this, if_true]
+    simp only [hc, IPH_OFFSET]
+    by_cases hiph : (videoCsw buf / 2 ^ 19) % 2 = 1
+    · simp only [hiph, if_true, Except.error.injEq]
+      constructor
+      · rintro rfl; exact Or.inr ⟨h4, rfl, Or.inl trivial⟩
+      · rintro (⟨h, _⟩ | ⟨_, rfl, _⟩)
+        · omega
+        · rfl
+    · simp only [hiph, if_false]
+      have key := splitTS_error_iff (buf.drop 4) ((buf.drop 4).length + 1) 0 (by omega) e
+      simp only [Nat.zero_add, List.length_drop] at key
+      cases hr : splitTS (buf.drop 4) (buf.length - 4 + 1) 0 with
+      | ok cs =>
+        rw [hr] at key
+        simp only [List.length_drop, hr, reduceCtorEq, false_iff]
+        rintro (⟨h, _⟩ | ⟨_, he, h | h⟩)
+        · omega
+        · exact h
+        · exact absurd (key.2 ⟨he, h⟩) (by simp)
+      | error e' =>
+        rw [hr] at key
+        simp only [List.length_drop, hr, Except.error.injEq]
+        constructor
+        · rintro rfl
+          obtain ⟨he, h⟩ := key.1 rfl
+          exact Or.inr ⟨h4, he, Or.inr h⟩
+        · rintro (⟨h, _⟩ | ⟨_, he, h | h⟩)
+          · omega
+          · exact absurd h (by simp)
+          · have := key.2 ⟨he, h⟩
+            simpa using this
+  · have hc : structUnpackFrom VID_unpack_fmt0 buf 0 = .error .struct := by
+      simp only [structUnpackFrom, VID_unpack_fmt0, Fmt.size, codesSize, Code.size]
+      have : ¬ 0 + (4 + 0) ≤ buf.length := by omega
+      simp only [this, if_false]
+    simp only [hc, Except.error.injEq]
+    constructor
+    · rintro rfl; exact Or.inl ⟨by omega, rfl⟩
+    · rintro (⟨_, rfl⟩ | ⟨h, _⟩)
+      · rfl
+      · omega
+
+/-- the outcome list — nothing else, in particular never `fuel` -/
+theorem Video_unpack_outcomes (t : State) (buf : Bytes) :
+    (unpack t buf).2 = .ok () ∨ (unpack t buf).2 = .error .struct ∨ (unpack t buf).2 = .error .generic := by
+  cases hr : (unpack t buf).2 with
+  | ok u => exact Or.inl rfl
+  | error e =>
+    rcases (Video_unpack_error_iff t buf e).1 hr with ⟨_, rfl⟩ | ⟨_, rfl, _⟩
+    · exact Or.inr (Or.inl rfl)
+    · exact Or.inr (Or.inr rfl)
+
+/-- every outcome is reachable: `wVideo` accepted; 3 bytes → `struct.error`; intra-packet-header bit (bit 19 of the
+    channel-specific word) set → `Exception`; the SECOND chunk's sync byte wrong → `Exception`; a trailing chunk of
+    three bytes (shorter than the 4-byte transport header) → `Exception` -/
+example : (unpack fresh (wVideo.take 3)).2 = .error .struct := by rfl
+set_option maxRecDepth 20000 in
+example : (unpack fresh (wVideo.set 2 8)).2 = .error .generic := by rfl
+set_option maxRecDepth 20000 in
+example : (unpack fresh (wVideo.set 192 0x46)).2 = .error .generic := by rfl
+set_option maxRecDepth 20000 in
+example : (unpack fresh (wVideo ++ [0x47, 0, 0])).2 = .error .generic := by rfl
+
+/-- witness for `splitTS_error_iff` (fuel hypothesis and both sides): a 5-byte stream whose only chunk has the wrong sync byte -/
+example : ([0x46, 0, 0, 0x10, 1] : Bytes).length - 0 + 1 ≤ 6 ∧ splitTS [0x46, 0, 0, 0x10, 1] 6 0 = .error .generic ∧
+    0 + 188 * 0 < ([0x46, 0, 0, 0x10, 1] : Bytes).length ∧
+    chunkOk (slice [0x46, 0, 0, 0x10, 1] (0 + 188 * 0) (0 + 188 * 0 + 188)) = false := ⟨by decide, rfl, by decide, rfl⟩
+
 end Acra.Props.C08
